@@ -349,6 +349,8 @@ def instrument(S):
             S.created.append(nm)
             label = nm if idx == 0 else '%s#%d' % (nm, idx + 1)
 
+            self._vz_done = False
+
             def wrapped(*a, **k):
                 try:
                     S.register_child(label)
@@ -356,6 +358,7 @@ def instrument(S):
                 except Unwind:
                     pass
                 finally:
+                    self._vz_done = True
                     try:
                         S.finish_child()
                     except Exception:  # noqa
@@ -367,6 +370,20 @@ def instrument(S):
             n = len(S.threads)
             RealThread.start(self)
             S.wait_child_registered(n)
+
+        def join(self, timeout=None):
+            # waiting for another thread to end is a blocking point like any other: enabled once that thread has finished (a timed join is
+            # always enabled and times out at once when it has not, as the timed queue operations do)
+            if threading.get_ident() in S.threads and not S.evaluating():
+                if timeout is None:
+                    S.yield_(lambda: self._vz_done, 'thread_join')
+                else:
+                    S.timed_waits += 1
+                    S.yield_(lambda: True, 'thread_join_timed')
+                    if not self._vz_done:
+                        S.timeouts_fired += 1
+                        return None
+            return RealThread.join(self, timeout)
 
     def vsleep(seconds):
         """time.sleep under the scheduler: no real time passes, the caller merely lets the others run (or not)"""
